@@ -7,8 +7,8 @@ ENGINE = {'name': 'conn',
  'check': 'check',
  'imports': ['From L4.model Require Import Conn.'],
  'n_quick': 400,
- 'n_thorough': 20000,
- 'shard': 100,
+ 'n_thorough': 6000,
+ 'shard': 25,
  'timeout': 900,
  'serves': ['C01', 'C06'],
  'rule': 'lock-step operation sequences (10..60 operations: Read n, prefetch, freeze, unfreeze (nested as MatchNot does, sometimes '
